@@ -684,3 +684,405 @@ Proof.
   specialize (H (cfg0 2) sh_data (A_getput false AK_vara) F4_witness OK).
   apply traces_match_spec in H. vm_compute in H. discriminate H.
 Qed.
+
+(* ---- corollaries of collective_match_partial: where the property holds for EVERY assignment ---- *)
+Lemma match_by_class0 : forall c sh a ls,
+  ranks_ok a ls -> (forall l, In l ls -> sync_class c sh a l = 0%nat) -> all_match (traces c sh a ls).
+Proof.
+  intros c sh a ls OK H. apply collective_match_partial; [exact OK|].
+  intros l1 l2 H1 H2. rewrite (H _ H1), (H _ H2). reflexivity.
+Qed.
+
+(* collective get of every form (var, var1, vara, vars, varm, vard): any mixture of valid,
+   zero-length and invalid requests, on variables of any kind *)
+Theorem match_get : forall c sh k ls,
+  ranks_ok (A_getput true k) ls -> all_match (traces c sh (A_getput true k) ls).
+Proof.
+  intros. apply match_by_class0; [assumption|]. intros l _. destruct l; reflexivity.
+Qed.
+Theorem match_get_vard : forall c sh ls,
+  ranks_ok (A_vard true) ls -> all_match (traces c sh (A_vard true) ls).
+Proof.
+  intros. apply match_by_class0; [assumption|]. intros l _. destruct l; reflexivity.
+Qed.
+
+(* wait_all, mput/mget: any numbers of pending requests, invalid request ids, invalid arguments *)
+Theorem match_wait_all : forall c sh ls,
+  ranks_ok A_wait_all ls -> all_match (traces c sh A_wait_all ls).
+Proof. intros. apply match_by_class0; [assumption|]. intros l _. destruct l; reflexivity. Qed.
+Theorem match_mgetput : forall c sh isget ls,
+  ranks_ok (A_mgetput isget) ls -> all_match (traces c sh (A_mgetput isget) ls).
+Proof. intros. apply match_by_class0; [assumption|]. intros l _. destruct l; reflexivity. Qed.
+
+(* collective put on variables that are not record variables (fixed-size or scalar): any mixture *)
+Definition no_record (ls : list local) : Prop :=
+  Forall (fun l => match l with LReq r => is_rec (d_vk r) = false | _ => True end) ls.
+Theorem match_put_fixed : forall c sh k ls,
+  ranks_ok (A_getput false k) ls -> no_record ls -> all_match (traces c sh (A_getput false k) ls).
+Proof.
+  intros c sh k ls OK NR. apply match_by_class0; [assumption|]. intros l Hl.
+  unfold no_record in NR. rewrite Forall_forall in NR. specialize (NR _ Hl).
+  destruct l; try reflexivity. cbn [sync_class negb andb]. rewrite NR. reflexivity.
+Qed.
+Theorem match_put_vard_fixed : forall c sh ls,
+  ranks_ok (A_vard false) ls -> no_record ls -> all_match (traces c sh (A_vard false) ls).
+Proof.
+  intros c sh ls OK NR. apply match_by_class0; [assumption|]. intros l Hl.
+  unfold no_record in NR. rewrite Forall_forall in NR. specialize (NR _ Hl).
+  destruct l; try reflexivity. cbn [sync_class negb andb]. rewrite NR. reflexivity.
+Qed.
+
+(* collective put on record variables when no rank has a dispatcher-level error: valid and
+   zero-length requests in any mixture, different records, different counts *)
+Definition all_record_noerr (ls : list local) : Prop :=
+  Forall (fun l => match l with LReq r => is_rec (d_vk r) = true /\ d_err r = 0 | _ => True end) ls.
+Theorem match_put_record_valid : forall sh k ls np,
+  ranks_ok (A_getput false k) ls -> all_record_noerr ls -> state_err sh true = 0 ->
+  all_match (traces (cfg0 np) sh (A_getput false k) ls).
+Proof.
+  intros sh k ls np OK AR SE. apply collective_match_partial; [assumption|].
+  intros l1 l2 H1 H2. unfold all_record_noerr in AR. rewrite Forall_forall in AR.
+  unfold ranks_ok in OK. rewrite Forall_forall in OK.
+  pose proof (AR _ H1) as A1. pose proof (AR _ H2) as A2.
+  destruct (OK _ H1) as [D1 _]. destruct (OK _ H2) as [D2 _].
+  destruct l1; cbn in D1; try discriminate D1. destruct l2; cbn in D2; try discriminate D2.
+  destruct A1 as [R1 E1]. destruct A2 as [R2 E2].
+  cbn. unfold disp_err. rewrite SE, R1, R2, E1, E2. reflexivity.
+Qed.
+
+(* varn when no rank takes the scalar-variable path *)
+Definition no_scalar_path (ls : list local) : Prop :=
+  Forall (fun l => match l with LReq r => varn_scalar r = false | _ => True end) ls.
+Theorem match_varn_nonscalar : forall c sh isget ls,
+  ranks_ok (A_varn isget) ls -> no_scalar_path ls -> all_match (traces c sh (A_varn isget) ls).
+Proof.
+  intros c sh isget ls OK NS. apply match_by_class0; [assumption|]. intros l Hl.
+  unfold no_scalar_path in NS. rewrite Forall_forall in NS. specialize (NS _ Hl).
+  destruct l; try reflexivity. cbn. rewrite NS. reflexivity.
+Qed.
+
+(* calls without per-rank arguments: enddef, redef, begin/end_indep_data, sync, sync_numrecs, close
+   (also with different numbers of pending requests), abort -- from every mode, every history *)
+Theorem match_noarg : forall c sh a ls,
+  match a with A_enddef | A_redef | A_begin_indep | A_end_indep | A_sync | A_sync_numrecs | A_close | A_abort => True | _ => False end ->
+  ranks_ok a ls -> all_match (traces c sh a ls).
+Proof.
+  intros c sh a ls Ha OK. apply match_by_class0; [assumption|]. intros l _.
+  destruct a; try contradiction Ha; destruct l; reflexivity.
+Qed.
+
+(* fill_var_rec and the collective metadata calls in safe mode (no rank returning before the first
+   collective), and the metadata calls without safe mode unless the header is written collectively *)
+Theorem match_fill_safe : forall c sh ls,
+  c_safe c = true -> ranks_ok A_fill_var_rec ls -> all_match (traces c sh A_fill_var_rec ls).
+Proof.
+  intros c sh ls S OK. apply match_by_class0; [assumption|]. intros l _. destruct l; try reflexivity. cbn. rewrite S. reflexivity.
+Qed.
+
+Definition no_e0 (ls : list local) : Prop :=
+  Forall (fun l => match l with LMeta m => m_e0 m = 0 | _ => True end) ls.
+
+Theorem match_meta_safe : forall c sh m ls,
+  c_safe c = true -> ranks_ok (A_meta m) ls -> no_e0 ls -> all_match (traces c sh (A_meta m) ls).
+Proof.
+  intros c sh m ls S OK NE. apply match_by_class0; [assumption|]. intros l Hl.
+  unfold no_e0 in NE. rewrite Forall_forall in NE. specialize (NE _ Hl).
+  destruct l; try reflexivity. cbn. rewrite S, NE. reflexivity.
+Qed.
+
+Theorem match_meta_indep_header : forall c sh m ls,
+  c_safe c = false -> c_hcoll c = false -> ranks_ok (A_meta m) ls -> all_match (traces c sh (A_meta m) ls).
+Proof.
+  intros c sh m ls S Hc OK. apply match_by_class0; [assumption|]. intros l _.
+  destruct l; try reflexivity. cbn. unfold meta_hdr_global. rewrite S, Hc. rewrite !andb_false_r. reflexivity.
+Qed.
+
+Theorem match__enddef_safe : forall c sh ls,
+  c_safe c = true -> ranks_ok A__enddef ls -> all_match (traces c sh A__enddef ls).
+Proof.
+  intros c sh ls S OK. apply match_by_class0; [assumption|]. intros l _. destruct l; try reflexivity. cbn. rewrite S. reflexivity.
+Qed.
+
+Theorem match_create_open : forall c sh a ls,
+  (a = A_create \/ a = A_open) -> ranks_ok a ls -> no_e0 ls -> all_match (traces c sh a ls).
+Proof.
+  intros c sh a ls Ha OK NE. apply match_by_class0; [assumption|]. intros l Hl.
+  unfold no_e0 in NE. rewrite Forall_forall in NE. specialize (NE _ Hl).
+  destruct Ha; subst; destruct l; try reflexivity; cbn; rewrite NE; reflexivity.
+Qed.
+
+(* ---- further refutation witnesses (each is replayed on the library by checks/C08.py) ---- *)
+Definition refutes (c : cfg) (sh : shared) (a : api) (ls : list local) : Prop :=
+  ranks_ok a ls /\ run_matches c sh a ls = false.
+
+Lemma refutes_full : forall c sh a ls, refutes c sh a ls -> ~ collective_match_full.
+Proof.
+  intros c sh a ls [OK R] H. specialize (H c sh a ls OK). apply traces_match_spec in H.
+  unfold run_matches in R. unfold traces in H. congruence.
+Qed.
+
+(* (b) ranks address variables of different kinds in one collective put *)
+Example refuted_mixed_kinds : refutes (cfg0 2) sh_data (A_getput false AK_vara) [req_ok VRecord 3; req_ok VFixed 2].
+Proof. split; [repeat constructor | vm_compute; reflexivity]. Qed.
+(* ... also in safe mode *)
+Example refuted_mixed_kinds_safe :
+  refutes (mkCfg true false false false 2 0) sh_data (A_getput false AK_vara) [req_ok VRecord 3; req_ok VFixed 2].
+Proof. split; [repeat constructor | vm_compute; reflexivity]. Qed.
+(* (c) varn: one rank addresses a scalar variable, another a non-scalar one with zero requests *)
+Example refuted_varn_scalar :
+  refutes (cfg0 2) sh_data (A_varn false) [req_ok VScalar 2; LReq (mkReq 0 false VFixed false 0 false 2 true 1)].
+Proof. split; [repeat constructor | vm_compute; reflexivity]. Qed.
+(* ... the SAME scalar variable, one rank with num = 0 *)
+Example refuted_varn_scalar_num0 :
+  refutes (cfg0 2) sh_data (A_varn false) [req_ok VScalar 2; LReq (mkReq 0 false VScalar false 0 false 2 true 1)].
+Proof. split; [repeat constructor | vm_compute; reflexivity]. Qed.
+(* vard put on a record variable, one rank with a bad varid *)
+Example refuted_vard :
+  refutes (cfg0 2) sh_data (A_vard false) [req_ok VRecord 3; LReq (mkReq NC_ENOTVAR true VFixed true 0 true 2 false 1)].
+Proof. split; [repeat constructor | vm_compute; reflexivity]. Qed.
+(* fill_var_rec without safe mode: one rank names a variable without fill mode *)
+Example refuted_fill_var_rec :
+  refutes (cfg0 2) sh_data A_fill_var_rec [LFill (mkF false true true false 2 true); LFill (mkF false true true true 2 false)].
+Proof. split; [repeat constructor | vm_compute; reflexivity]. Qed.
+(* del_att in SAFE mode: a bad varid returns before the first Allreduce *)
+Definition sh_define : shared := mkSh MDefine false false 6 2 2 false 1 false false false false [] [] 0 0 0 0 0 0.
+Example refuted_del_att_safe :
+  refutes (mkCfg true false false false 2 0) sh_define (A_meta M_del_att)
+          [LMeta (mkM 0 0 0 0); LMeta (mkM NC_ENOTVAR 0 0 0)].
+Proof. split; [repeat constructor | vm_compute; reflexivity]. Qed.
+(* metadata call in data mode with the header written collectively (romio_no_indep_rw), no safe mode *)
+Example refuted_rename_hcoll :
+  refutes (mkCfg false true false false 2 0) sh_data (A_meta M_rename_var)
+          [LMeta (mkM 0 0 0 0); LMeta (mkM 0 NC_ENOTVAR 0 0)].
+Proof. split; [repeat constructor | vm_compute; reflexivity]. Qed.
+(* _enddef with a negative argument on one rank, header written collectively *)
+Example refuted__enddef_hcoll :
+  refutes (mkCfg false true false false 2 0) sh_define A__enddef [LMeta (mkM 0 0 0 0); LMeta (mkM 0 NC_EINVAL 0 0)].
+Proof. split; [repeat constructor | vm_compute; reflexivity]. Qed.
+
+(* with MPI_File_write_all / MPI_File_write_at_all kept apart the property already fails for a
+   FIXED-size variable: the erroring rank calls MPI_File_write_all (ncmpio_getput_zero_req), the
+   valid rank MPI_File_write_at_all (ncmpio_read_write) *)
+Theorem collective_match_strict_refuted :
+  exists c sh a ls, ranks_ok a ls /\ traces_match_strict (traces c sh a ls) = false /\ traces_match (traces c sh a ls) = true.
+Proof.
+  exists (cfg0 2), sh_data, (A_getput false AK_vara), [req_ok VFixed 2; req_bad NC_EINVALCOORDS VFixed].
+  split; [repeat constructor | split; vm_compute; reflexivity].
+Qed.
+
+(* ================================================================== errors_stay_local *)
+Definition data_api (a : api) : bool :=
+  match a with A_getput _ _ | A_varn _ | A_vard _ | A_mgetput _ | A_wait_all | A_fill_var_rec => true | _ => false end.
+
+(* the rank's own arguments are valid *)
+Definition valid_local (l : local) : Prop :=
+  match l with
+  | LReq r => d_err r = 0 /\ d_drv_err r = 0
+  | LWait w => w_err w = 0 /\ w_badid w = false
+  | LFill f => f_global f = false /\ f_valid f = true /\ fill_drv_err f = 0
+  | _ => True
+  end.
+
+(* the rank has something to transfer *)
+Definition wants (a : api) (l : local) : bool :=
+  match a, l with
+  | A_varn _, LReq r => if varn_scalar r then d_nonzero r else negb (d_num0 r) && (0 <? d_nreq r)
+  | _, LReq r => d_nonzero r
+  | _, LWait w => (0 <? w_nw w) || (0 <? w_nr w)
+  | _, LFill _ => true
+  | _, _ => false
+  end.
+
+Definition state_ok (sh : shared) : Prop := s_mode sh = MColl /\ s_rdonly sh = false.
+
+(* FULL: outside safe mode a rank with valid arguments gets NC_NOERR and its transfer is carried
+   out, whatever the other ranks pass *)
+Definition errors_stay_local_full : Prop :=
+  forall c sh a ls i l,
+    data_api a = true -> c_safe c = false -> multi c = true -> state_ok sh ->
+    ranks_ok a ls -> nth_error ls i = Some l -> valid_local l ->
+    exists st, cret c sh a (gsum_ranks sh a ls) (Nat.eqb i 0) l = Ret 0 st /\ (wants a l = true -> st = true).
+
+Definition no_bad_request_id (ls : list local) : Prop :=
+  Forall (fun l => match l with LWait w => w_badid w = false | _ => True end) ls.
+
+Lemma existsb_false : forall (A : Type) (f : A -> bool) l, (forall x, In x l -> f x = false) -> existsb f l = false.
+Proof. induction l as [|x l IH]; intro H; cbn; [reflexivity|]. rewrite (H x (or_introl eq_refl)). apply IH. intros; apply H; right; assumption. Qed.
+
+Lemma anyerr_false : forall sh a ls, no_bad_request_id ls -> g_anyerr (gsum_ranks sh a ls) = false.
+Proof.
+  intros sh a ls H. unfold gsum_ranks, gsum_of; cbn [g_anyerr]. apply existsb_false.
+  intros k Hk. apply in_map_iff in Hk. destruct Hk as [l [E Hl]]. subst k.
+  unfold no_bad_request_id in H. rewrite Forall_forall in H. specialize (H _ Hl).
+  destruct a, l; cbn; try reflexivity; try exact H.
+Qed.
+
+Lemma state_err_ok : forall sh p, state_ok sh -> state_err sh p = 0.
+Proof. intros sh p [M R]. unfold state_err. rewrite M, R, andb_false_r. reflexivity. Qed.
+
+(* PARTIAL: it holds whenever no rank passes an invalid request id to wait_all *)
+Theorem errors_stay_local_partial : forall c sh a ls i l,
+  data_api a = true -> c_safe c = false -> multi c = true -> state_ok sh ->
+  ranks_ok a ls -> no_bad_request_id ls -> nth_error ls i = Some l -> valid_local l ->
+  exists st, cret c sh a (gsum_ranks sh a ls) (Nat.eqb i 0) l = Ret 0 st /\ (wants a l = true -> st = true).
+Proof.
+  intros c sh a ls i l DA S M SO OK NB NTH V.
+  pose proof (anyerr_false sh a ls NB) as AE.
+  assert (Hin : In l ls) by (eapply nth_error_In; eassumption).
+  unfold ranks_ok in OK. rewrite Forall_forall in OK. destruct (OK _ Hin) as [AD WF].
+  set (g := gsum_ranks sh a ls) in *.
+  unfold cret, exec. rewrite M. cbn [negb]. rewrite S.
+  destruct a; cbn in DA; try discriminate DA; destruct l; cbn in AD; try discriminate AD; cbn [valid_local] in V.
+  - (* getput *) destruct V as [E D]. unfold disp_err. rewrite (state_err_ok sh _ SO). cbn. rewrite E, D. cbn.
+    eexists; split; [reflexivity|]. intro H; exact H.
+  - (* varn *) destruct V as [E D]. unfold disp_err. rewrite (state_err_ok sh _ SO). cbn [Z.eqb]. rewrite E. cbn [fatal Z.eqb orb].
+    assert (F : fatal 0 = false) by reflexivity. rewrite F.
+    unfold wants. destruct (varn_scalar r) eqn:VS; cbn [snd].
+    + rewrite D. cbn. eexists; split; [reflexivity|]. intro H; exact H.
+    + rewrite D, AE. cbn [first_err Z.eqb negb andb]. unfold varn_nreq, varn_zero. rewrite E, D. cbn [Z.eqb negb orb].
+      eexists; split; [reflexivity|]. intro H. apply andb_true_iff in H. destruct H as [H1 H2].
+      apply negb_true_iff in H1. rewrite H1. cbn. rewrite H2. reflexivity.
+  - (* vard *) destruct V as [E D]. unfold disp_err. rewrite (state_err_ok sh _ SO). cbn. rewrite E, D. cbn.
+    eexists; split; [reflexivity|]. intro H; exact H.
+  - (* mgetput *) destruct V as [E _]. rewrite (state_err_ok sh _ SO). cbn [Z.eqb]. rewrite E. cbn. rewrite AE. cbn.
+    eexists; split; [reflexivity|]. reflexivity.
+  - (* wait_all *) destruct V as [_ B]. destruct SO as [MC _]. rewrite MC. cbn [snd]. rewrite B, AE. cbn.
+    eexists; split; [reflexivity|]. reflexivity.
+  - (* fill_var_rec *) destruct V as [G [Vv D]]. rewrite G, Vv, D. cbn.
+    eexists; split; [reflexivity|]. reflexivity.
+Qed.
+
+(* the hypotheses are satisfiable: F4's valid rank *)
+Example errors_stay_local_nonvacuous :
+  exists st, cret (cfg0 2) sh_data (A_getput false AK_vara) (gsum_ranks sh_data (A_getput false AK_vara) F4_witness) true (req_ok VRecord 3) = Ret 0 st /\ st = true.
+Proof. eexists; split; vm_compute; reflexivity. Qed.
+
+(* REFUTED: wait_all, rank 0 waits for one valid pending put, rank 1 passes an invalid request id:
+   req_commit returns on EVERY rank after the Allreduce, rank 0 gets NC_NOERR but its request is dropped *)
+Definition wait_witness : list local := [LWait (mkW 0 1 0 false false 2); LWait (mkW 0 0 0 true false 2)].
+
+Theorem errors_stay_local_refuted : ~ errors_stay_local_full.
+Proof.
+  intro H.
+  specialize (H (cfg0 2) sh_data A_wait_all wait_witness 0%nat (LWait (mkW 0 1 0 false false 2))).
+  destruct H as [st [E W]]; try reflexivity; try (repeat constructor).
+  vm_compute in E. inversion E; subst. specialize (W eq_refl). discriminate W.
+Qed.
+
+(* ================================================================== safe_mode_uniform *)
+Definition rc_of (o : outcome) : option Z := match o with Ret rc _ => Some rc | Crash => None end.
+Definition rets (c : cfg) (sh : shared) (a : api) (ls : list local) : list outcome := map snd (run c sh a ls).
+
+Definition meta_like (a : api) : bool :=
+  match a with A_meta _ | A__enddef | A_create | A_open | A_fill_var_rec => true | _ => false end.
+
+(* FULL: with safe mode every rank of a collective metadata call returns the same code *)
+Definition safe_mode_uniform_full : Prop :=
+  forall c sh a ls, c_safe c = true -> multi c = true -> meta_like a = true -> ranks_ok a ls -> no_e0 ls ->
+    forall o1 o2, In o1 (rets c sh a ls) -> In o2 (rets c sh a ls) -> rc_of o1 = rc_of o2.
+
+(* APIs whose safe-mode blocks all end in `return minE` *)
+Definition returns_min (a : api) : bool :=
+  match a with
+  | A_meta m => negb (md_keep_own (metadesc_of m)) && (match md_dar (metadesc_of m) with Some _ => true | None => false end)
+  | A__enddef | A_create | A_open => true
+  | _ => false
+  end.
+
+Lemma in_rets : forall c sh a ls o,
+  In o (rets c sh a ls) -> exists l root, In l ls /\ o = cret c sh a (gsum_ranks sh a ls) root l.
+Proof.
+  intros c sh a ls o H. unfold rets in H. apply in_map_iff in H. destruct H as [p [Hp Hin]].
+  apply in_run_from in Hin. destruct Hin as [l [r [Hl He]]]. exists l, r. split; [exact Hl|]. subst. reflexivity.
+Qed.
+
+Lemma safe_rc_min : forall c sh a g r1 r2 l1 l2,
+  c_safe c = true -> returns_min a = true ->
+  admissible a l1 = true -> admissible a l2 = true ->
+  (match l1 with LMeta m => m_e0 m = 0 | _ => True end) -> (match l2 with LMeta m => m_e0 m = 0 | _ => True end) ->
+  rc_of (cret c sh a g r1 l1) = rc_of (cret c sh a g r2 l2).
+Proof.
+  intros c sh a g r1 r2 l1 l2 S RM A1 A2 E1 E2. unfold cret, exec.
+  destruct (multi c); [|reflexivity]. cbn [negb].
+  destruct a; cbn in RM; try discriminate RM;
+    destruct l1; cbn in A1; try discriminate A1; destruct l2; cbn in A2; try discriminate A2; rewrite ?S.
+  - (* create *) rewrite E1, E2. cbn [Z.eqb negb]. destruct (s_noclobber sh); [destruct (s_exists_err sh)|]; reflexivity.
+  - (* open *) rewrite E1, E2. cbn [Z.eqb negb]. destruct (s_exists_err sh); reflexivity.
+  - (* _enddef *) destruct (s_mode sh); try reflexivity.
+    destruct (g_min1 g =? 0); [|reflexivity]. destruct (g_min2 g =? 0); reflexivity.
+  - (* metadata calls *) unfold meta_exec. rewrite E1, E2, S. cbn [Z.eqb negb].
+    destruct m0; cbn in RM; try discriminate RM;
+      cbn [metadesc_of md_ar1 md_bcs md_ar2 md_dbcs md_dar md_keep_own md_post md_header];
+      rewrite ?andb_true_r; brk; reflexivity.
+Qed.
+
+(* PARTIAL: it holds for every API whose blocks return the minimum *)
+Theorem safe_mode_uniform_partial : forall c sh a ls,
+  c_safe c = true -> returns_min a = true -> ranks_ok a ls -> no_e0 ls ->
+  forall o1 o2, In o1 (rets c sh a ls) -> In o2 (rets c sh a ls) -> rc_of o1 = rc_of o2.
+Proof.
+  intros c sh a ls S RM OK NE o1 o2 H1 H2.
+  apply in_rets in H1. apply in_rets in H2.
+  destruct H1 as [l1 [r1 [I1 E1]]]. destruct H2 as [l2 [r2 [I2 E2]]]. subst.
+  unfold ranks_ok in OK. rewrite Forall_forall in OK. unfold no_e0 in NE. rewrite Forall_forall in NE.
+  apply safe_rc_min; try assumption; try (apply OK; assumption).
+  - specialize (NE _ I1). destruct l1; auto.
+  - specialize (NE _ I2). destruct l2; auto.
+Qed.
+
+(* non-trivial instance: rename_var in data mode, three ranks, rank 1 passes another name, rank 2 another varid *)
+Example safe_mode_uniform_nonvacuous :
+  let c := mkCfg true false false false 3 0 in
+  let ls := [LMeta (mkM 0 0 0 0); LMeta (mkM 0 0 (-256) 0); LMeta (mkM 0 0 NC_EMULTIDEFINE_FNC_ARGS 0)] in
+  returns_min (A_meta M_rename_var) = true /\ ranks_ok (A_meta M_rename_var) ls /\ no_e0 ls /\
+  map rc_of (rets c sh_data (A_meta M_rename_var) ls) = [Some NC_EMULTIDEFINE_FNC_ARGS; Some NC_EMULTIDEFINE_FNC_ARGS; Some NC_EMULTIDEFINE_FNC_ARGS].
+Proof. cbn zeta. repeat split; try (repeat constructor); vm_compute; reflexivity. Qed.
+
+(* REFUTED: fill_var_rec, rank 0 names a record variable without fill mode (NC_ENOTFILL), rank 1 a
+   different record variable (NC_EMULTIDEFINE_FNC_ARGS): ncmpio_fill_var_rec keeps the rank's own error *)
+Definition fill_safe_witness : list local :=
+  [LFill (mkF false true true true 2 true); LFill (mkF false true true false 2 false)].
+
+Theorem safe_mode_uniform_refuted : ~ safe_mode_uniform_full.
+Proof.
+  intro H.
+  specialize (H (mkCfg true false false false 2 0) sh_data A_fill_var_rec fill_safe_witness eq_refl eq_refl eq_refl).
+  assert (OK : ranks_ok A_fill_var_rec fill_safe_witness) by (repeat constructor).
+  assert (NE : no_e0 fill_safe_witness) by (repeat constructor).
+  specialize (H OK NE (Ret NC_ENOTFILL false) (Ret NC_EMULTIDEFINE_FNC_ARGS false)).
+  assert (K : rc_of (Ret NC_ENOTFILL false) = rc_of (Ret NC_EMULTIDEFINE_FNC_ARGS false)).
+  { apply H; vm_compute; tauto. }
+  vm_compute in K. discriminate K.
+Qed.
+
+(* argument errors of the data-access calls are made collective by safe mode *)
+Theorem safe_mode_data_errors_uniform : forall c sh a g r l,
+  c_safe c = true -> multi c = true ->
+  match a with A_getput _ _ | A_varn _ | A_vard _ | A_mgetput _ => True | _ => False end ->
+  admissible a l = true -> g_min1 g <> 0 ->
+  cret c sh a g r l = Ret (g_min1 g) false.
+Proof.
+  intros c sh a g r l S M Ha A G. unfold cret, exec. rewrite M. cbn [negb].
+  apply Z.eqb_neq in G.
+  destruct a; try contradiction Ha; destruct l; cbn in A; try discriminate A; rewrite S, G; reflexivity.
+Qed.
+
+(* ================================================================== crashes *)
+(* the only undefined behaviour of the model: fill_var_rec without safe mode and a bad varid *)
+Theorem crash_only_fill_var_rec : forall c sh a g r l,
+  cret c sh a g r l = Crash ->
+  a = A_fill_var_rec /\ c_safe c = false /\ exists f, l = LFill f /\ (f_global f = true \/ f_valid f = false).
+Proof.
+  intros c sh a g r l H. unfold cret, exec in H.
+  destruct (multi c); [|discriminate H]. cbn [negb] in H.
+  destruct a; destruct l; cbn [snd] in H;
+    try (unfold meta_exec in H);
+    repeat match type of H with
+           | snd (if ?b then _ else _) = _ => destruct b eqn:?
+           | snd (match ?x with MDefine => _ | MColl => _ | MIndep => _ end) = _ => destruct x eqn:?
+           | snd (match ?x with Some _ => _ | None => _ end) = _ => destruct x eqn:?
+           | snd (let (_, _) := ?x in _) = _ => destruct x eqn:?
+           end; cbn [snd stop] in H; try discriminate H.
+  all: try (split; [reflexivity | split; [reflexivity|]]; eexists; split; [reflexivity|];
+            match goal with E : (_ || negb _) = true |- _ => apply orb_true_iff in E; destruct E as [E|E]; [left; exact E | right; apply negb_true_iff in E; exact E] end).
+Qed.
